@@ -714,31 +714,25 @@ fn decode<'a>(
                     unsafe { std::mem::transmute::<&[u8], &[u8]>(dict_data.cast_ref_u8()) };
                 let string_ranges = section_stack.pop().unwrap();
                 let string_ranges = string_ranges.cast_ref_u64();
+                // Indices are nullable for nullable dictionary encoded strings: keep the null map.
+                let index_data = section_stack.pop().unwrap();
                 let indices: Vec<usize> = match encoding_type {
-                    EncodingType::U8 => section_stack
-                        .pop()
-                        .unwrap()
+                    EncodingType::U8 => index_data
                         .cast_ref_u8()
                         .iter()
                         .map(|i| *i as usize)
                         .collect(),
-                    EncodingType::U16 => section_stack
-                        .pop()
-                        .unwrap()
+                    EncodingType::U16 => index_data
                         .cast_ref_u16()
                         .iter()
                         .map(|i| *i as usize)
                         .collect(),
-                    EncodingType::U32 => section_stack
-                        .pop()
-                        .unwrap()
+                    EncodingType::U32 => index_data
                         .cast_ref_u32()
                         .iter()
                         .map(|i| *i as usize)
                         .collect(),
-                    EncodingType::I64 => section_stack
-                        .pop()
-                        .unwrap()
+                    EncodingType::I64 => index_data
                         .cast_ref_i64()
                         .iter()
                         .map(|i| *i as usize)
@@ -757,7 +751,11 @@ fn decode<'a>(
                         unsafe { str::from_utf8_unchecked(&dict_data[offset..(offset + len)]) };
                     output.push(string);
                 }
-                Box::new(output) as BoxedData
+                if index_data.get_type().is_nullable() {
+                    output.make_nullable(index_data.cast_ref_null_map())
+                } else {
+                    Box::new(output) as BoxedData
+                }
             }
             CodecOp::LZ4(encoding_type, count) => match encoding_type {
                 EncodingType::U8 => {
